@@ -113,10 +113,11 @@ package vanguard
 // ------------------------------------------------------------------------------------------------
 // Well-formedness predicates (type invariants of the per-request objects)
 
-//@ pred validConf(m) = m != nil && m.serviceOptions != nil && m.maxMsgBufferBytes > 0
+//@ pred validConf(m) = m != nil && m.serviceOptions != nil && m.maxMsgBufferBytes > 0 && m.descriptor != nil && m.requestType != nil && m.responseType != nil && m.handler != nil
 //@ pred validOp(o) = o != nil && o.bufferPool != nil && validConf(o.methodConf) && o.request != nil
 //@ |  && o.client.protocol != nil && o.server.protocol != nil && o.client.codec != nil && o.server.codec != nil
 //@ |  && o.contentLen >= -1
+//@ |  && (typeIs(o.client.protocol, restClientProtocol) || typeIs(o.server.protocol, restServerProtocol) ==> o.restTarget != nil)
 //@ pred limitOf(o) = o.methodConf.maxMsgBufferBytes
 
 // ------------------------------------------------------------------------------------------------
@@ -143,17 +144,18 @@ package vanguard
 //@ pred validRW(w) = w != nil && validOp(w.op) && w.delegate != nil && extern(w.delegate) && !typeIs(w.delegate, *bytes.Buffer) && w.flusher != nil && w.contentLen >= -1
 //@ |  && (typeIs(w.flusher, flusherNoError) ==> unbox(w.flusher, flusherNoError).f != nil)
 // rwInv: the state machine invariant, established by handle() and preserved by every method.
-//@ pred rwInv(w) = validRW(w)
+//@ pred rwCore(w) = validRW(w)
 //@ |  && (w.endWritten ==> w.headersFlushed && w.err != nil)
 //@ |  && (w.buf != nil ==> !w.headersFlushed && owned(w.buf))
-//@ |  && (w.headersWritten && !w.endWritten ==> w.respMeta != nil)
 //@ |  && (w.headersFlushed ==> w.respMeta != nil)
-//@ |  && (w.w != nil ==> w.headersWritten)
+//@ pred rwInv(w) = rwCore(w)
+//@ |  && (w.headersWritten && !w.endWritten ==> w.respMeta != nil)
+//@ |  && (w.w != nil ==> w.headersWritten) && (!w.headersWritten ==> (!w.headersFlushed || w.endWritten) && w.buf == nil)
 // rwStep: how the state machine may move in any step that is not WriteHeader (reflexive, transitive).
 //@ pred rwStep(w) = w.op == old(w.op) && w.delegate == old(w.delegate) && w.flusher == old(w.flusher) && w.contentLen == old(w.contentLen)
 //@ |  && w.w == old(w.w) && w.headersWritten == old(w.headersWritten) && w.code == old(w.code)
 //@ |  && (old(w.endWritten) ==> w.endWritten && w.err == old(w.err) && w.respMeta == old(w.respMeta) && w.buf == old(w.buf))
-//@ |  && (old(w.headersFlushed) ==> w.headersFlushed) && (old(w.respMeta) != nil ==> w.respMeta != nil)
+//@ |  && (old(w.headersFlushed) ==> w.headersFlushed) && (old(w.respMeta) != nil ==> w.respMeta == old(w.respMeta))
 //@ |  && (w.buf == old(w.buf) || w.buf == nil)
 
 //@ func (*responseWriter).flushMessage
@@ -222,17 +224,17 @@ package vanguard
 //@   modifies w.headersFlushed, w.buf, w.err, w.endWritten, owned(w.buf), blen(w.buf), #LIB
 
 //@ func (*responseWriter).reportEnd
-//@   requires rwInv(w) && end != nil
+//@   requires rwCore(w) && end != nil
 //@   step rwStep(w)
-//@   ensures[C03,C09] rwInv(w) && w.endWritten
+//@   ensures[C03,C09] rwCore(w) && w.endWritten && (old(rwInv(w)) ==> rwInv(w))
 //@   ensures[C03] old(w.endWritten) ==> w.err == old(w.err) && w.headersFlushed == old(w.headersFlushed) && w.respMeta == old(w.respMeta) && w.buf == old(w.buf)
 //@   ensures w.w == old(w.w) && w.headersWritten == old(w.headersWritten)
 //@   modifies w.headersFlushed, w.buf, w.err, w.endWritten, w.respMeta, end.trailers, w.respMeta.end, owned(w.buf), blen(w.buf), #LIB
 
 //@ func (*responseWriter).reportError
-//@   requires rwInv(w)
+//@   requires rwCore(w)
 //@   step rwStep(w)
-//@   ensures[C03,C09] rwInv(w) && w.endWritten
+//@   ensures[C03,C09] rwCore(w) && w.endWritten && (old(rwInv(w)) ==> rwInv(w))
 //@   ensures w.w == old(w.w) && w.headersWritten == old(w.headersWritten)
 //@   modifies w.headersFlushed, w.buf, w.err, w.endWritten, w.respMeta, $vanguard.responseMeta.end, $vanguard.responseEnd., owned(w.buf), blen(w.buf), #LIB
 
@@ -252,13 +254,12 @@ package vanguard
 //@   modifies blen(l.buf), blen(l.rw.buf), owned(l.rw.buf), #RWEND
 
 //@ func (*errorWriter).Write
-//@   requires e != nil && rwInv(e.rw)
+//@   preserves validErrW(e)
 //@   step rwStep(e.rw)
-//@   ensures[C10] e.buffer != nil && old(blen(e.buffer)) + len(data) > limitOf(e.rw.op) ==> r0 == 0 && err != nil && e.rw.endWritten
-//@   ensures[C10,C08] e.buffer != nil && old(blen(e.buffer)) + len(data) <= limitOf(e.rw.op) ==> r0 == len(data) && err == nil && blen(e.buffer) == old(blen(e.buffer)) + len(data)
-//@   ensures e.buffer == nil ==> r0 == 0 && err != nil
-//@   ensures rwInv(e.rw) && e.buffer == old(e.buffer) && e.rw == old(e.rw)
-//@   ensures e.rw.w == old(e.rw.w) && e.rw.headersWritten == old(e.rw.headersWritten) && (old(e.rw.endWritten) ==> e.rw.endWritten)
+//@   ensures[C10] old(blen(e.buffer)) + len(data) > limitOf(e.rw.op) ==> r0 == 0 && err != nil && e.rw.endWritten
+//@   ensures[C10,C08] old(blen(e.buffer)) + len(data) <= limitOf(e.rw.op) ==> r0 == len(data) && err == nil && blen(e.buffer) == old(blen(e.buffer)) + len(data)
+//@   ensures e.buffer == old(e.buffer) && e.rw == old(e.rw) && e.processBody == old(e.processBody)
+//@   modifies blen(e.buffer), blen(e.rw.buf), owned(e.rw.buf), #RWEND
 
 //@ func (noResponseBodyWriter).Write
 //@   ensures[C03] r0 == 0 && r1 != nil
@@ -351,6 +352,8 @@ package vanguard
 //@ pred ownMsg(m) = m.buf != nil ==> owned(m.buf)
 //@ pred prepOK(op) = (op.clientReqNeedsPrep || op.clientRespNeedsPrep ==> op.clientPreparer != nil) && (op.serverReqNeedsPrep || op.serverRespNeedsPrep ==> op.serverPreparer != nil)
 //@ |  && op.writer != nil && (typeIs(op.writer, *responseWriter) ==> validRW(unbox(op.writer, *responseWriter)))
+//@ |  && (op.clientPreparer != nil ==> tagOf(op.clientPreparer) == tagOf(op.client.protocol)) && (op.serverPreparer != nil ==> tagOf(op.serverPreparer) == tagOf(op.server.protocol))
+//@ |  && (op.clientEnveloper != nil ==> tagOf(op.clientEnveloper) == tagOf(op.client.protocol)) && (op.serverEnveloper != nil ==> tagOf(op.serverEnveloper) == tagOf(op.server.protocol))
 
 //@ func (*message).decompress
 //@   requires m != nil && m.buf != nil && validOp(op)
@@ -472,3 +475,85 @@ package vanguard
 //@   ensures[C09] old(w.expectingBytes) >= 0 && old(w.buffer) != nil && old(blen(w.buffer)) > 0 ==> w.rw.endWritten
 //@   ensures[C09] w.err != nil && w.buffer == nil
 //@   ensures rwInv(w.rw) && w.rw == old(w.rw)
+
+// ------------------------------------------------------------------------------------------------
+// C03 / C04 / C09: errorWriter (backend error body) and the top-level response writer
+
+//@ pred validErrW(e) = e != nil && rwInv(e.rw) && e.respMeta != nil && e.respMeta == e.rw.respMeta && e.buffer != nil && owned(e.buffer) && e.buffer != e.rw.buf && (!e.rw.headersFlushed || e.rw.endWritten)
+
+//@ func httpExtractContentLength
+//@   ensures[C03] err == nil ==> r0 >= -1
+//@   ensures err != nil ==> r0 == 0
+//@   modifies #LIB
+
+//@ func (*errorWriter).Close
+//@   requires validErrW(e) && e.processBody != nil
+//@   step rwStep(e.rw)
+//@   ensures[C03,C09] rwInv(e.rw) && e.rw.endWritten && e.buffer == nil && e.rw == old(e.rw)
+
+//@ pred ewStart(e) = !e.initialized ==> e.err == nil && e.current == nil && !e.writingEnvelope && !e.mustReleaseCurrent && !e.currentIsTrailer
+// wOK: which body writer is installed, and that it is in its resting state.
+//@ pred wOK(w) = w.w == nil
+//@ |  || (typeIs(w.w, *envelopingWriter) && ewInv(unbox(w.w, *envelopingWriter)) && ewStart(unbox(w.w, *envelopingWriter)) && unbox(w.w, *envelopingWriter).rw == w)
+//@ |  || (typeIs(w.w, *transformingWriter) && twRest(unbox(w.w, *transformingWriter)) && unbox(w.w, *transformingWriter).rw == w)
+//@ |  || (typeIs(w.w, *errorWriter) && validErrW(unbox(w.w, *errorWriter)) && unbox(w.w, *errorWriter).rw == w && unbox(w.w, *errorWriter).processBody != nil)
+//@ |  || typeIs(w.w, noResponseBodyWriter)
+//@ pred rwFull(w) = rwInv(w) && wOK(w) && prepOK(w.op) && (w.headersWritten && w.err == nil ==> w.w != nil)
+//@ pred mustBuffer(p) = typeIs(p, connectUnaryGetClientProtocol) || typeIs(p, connectUnaryPostClientProtocol) || typeIs(p, restClientProtocol)
+
+//@ func (*responseWriter).WriteHeader
+//@   requires rwFull(w)
+//@   dispatch (io.Writer).Write: none
+//@   ensures rwFull(w) && w.headersWritten && w.op == old(w.op)
+//@   ensures old(w.headersWritten) ==> rwStep(w)
+//@   ensures[C03] old(w.endWritten) ==> w.endWritten
+//@   ensures[C16] !old(w.headersWritten) && !old(w.endWritten) && w.err == nil && !mustBuffer(w.op.client.protocol) && !typeIs(w.w, *errorWriter) ==> w.headersFlushed && w.buf == nil
+//@   ensures[C16] !old(w.headersWritten) && w.buf != nil ==> mustBuffer(w.op.client.protocol)
+
+//@ func (*responseWriter).Write
+//@   requires rwFull(w)
+//@   dispatch (io.WriteCloser).Write: *envelopingWriter, *transformingWriter, *errorWriter, noResponseBodyWriter
+//@   ensures rwFull(w) && w.headersWritten && w.op == old(w.op)
+//@   ensures[C03] old(w.endWritten) ==> n == 0 && err != nil && w.endWritten
+//@   ensures[C08] 0 <= n && n <= len(data) && (err == nil ==> n == len(data))
+
+//@ func (*responseWriter).close
+//@   requires rwFull(w) && w.op.server.protocol != nil
+//@   dispatch (io.WriteCloser).Write: *envelopingWriter, *transformingWriter, *errorWriter, noResponseBodyWriter
+//@   dispatch (io.WriteCloser).Close: *envelopingWriter, *transformingWriter, *errorWriter, noResponseBodyWriter
+//@   ensures[C03,C09] w.endWritten && rwInv(w)
+
+// ------------------------------------------------------------------------------------------------
+// C15 / C14 / C10: pools
+
+//@ func (*compressionPool).compress
+//@   dispatch (io.Writer).Write: none
+//@   requires dst != nil && src != nil
+//@   requires[C14] owned(dst) && owned(src)
+//@   track gets = (*sync.Pool).Get
+//@   track puts = (*sync.Pool).Put
+//@   track resets = (connectrpc.com/connect.Compressor).Reset
+//@   ensures[C15] p != nil ==> gets == 1 && puts == 1 && resets == 1
+//@   ensures[C15] p == nil ==> gets == 0 && puts == 0
+//@   atcall[C15] (*sync.Pool).Put: resets == 1
+//@   modifies blen(dst), blen(src)
+
+//@ func (*compressionPool).decompress
+//@   requires dst != nil && src != nil
+//@   requires[C14] owned(dst) && owned(src)
+//@   track gets = (*sync.Pool).Get
+//@   track puts = (*sync.Pool).Put
+//@   track resets = (connectrpc.com/connect.Decompressor).Reset
+//@   ensures[C15] p != nil ==> gets == 1 && puts == 1 && resets == 1
+//@   ensures[C15] p == nil ==> gets == 0 && puts == 0
+//@   atcall[C15] (*sync.Pool).Put: resets == 1
+//@   modifies blen(dst), blen(src)
+
+//@ func (*bufferPool).Get
+//@   requires b != nil
+//@   ensures[C15] result != nil && blen(result) == 0
+//@ func (*bufferPool).Put
+//@   requires b != nil && buffer != nil
+//@ func (*bufferPool).Wrap
+//@   requires orig != nil
+//@   ensures[C15] result != nil && blen(result) == len(data)
